@@ -21,38 +21,47 @@
 EXTENDS PathDBHist
 
 VARIABLES syn,      \* number of freezer items known to be synced to disk
+          pt,       \* [tail, recs]: freezer tail known to be synced and the histories pruned since
+                    \* (tail truncation only rewrites the table metadata without fsync: a crash
+                    \* may bring the pruned histories back)
           dead,     \* the database refused to open (log.Crit) - terminal
           kf,       \* ghost: a journal describing layers of an abandoned branch was restored
                     \* (candidate defect C20-KF1, see NOTES.md) - terminal
           seen      \* ghost: [root -> parent root] of every transition ever executed
 
-cvars == <<vars, syn, dead, kf, seen>>
+cvars == <<vars, syn, pt, dead, kf, seen>>
 
 (* ------------------------------ durable states ------------------------------ *)
-Dur(s, j, y) == [kv |-> s.kv, ids |-> s.ids, hist |-> s.hist, jr |-> j, syn |-> y]
+Dur(s, j, y, o) == [kv |-> s.kv, ids |-> s.ids, hist |-> s.hist, jr |-> j, syn |-> y, pt |-> o]
+SyncedPt(h) == [tail |-> h.tail, recs |-> <<>>]
+(* histories dropped by moving the tail from h0 to h1 are remembered until the next sync *)
+Pruned(o, h0, h1) == [o EXCEPT !.recs = [i \in (DOMAIN @) \cup {x \in DOMAIN h0.recs : x <= h1.tail} |->
+                                          IF i \in DOMAIN h0.recs THEN h0.recs[i] ELSE @[i]]]
 
 (* durable states passed through while flattening the bottom layer of s (after each write) *)
-CommitDur(s, p, j, y) ==
+CommitDur(s, p, j, y, o) ==
   LET id == p.fin.disk.id
-      a  == <<Dur([s EXCEPT !.hist = p.hist0], j, y)>>
-      b  == IF p.hist1 # p.hist0 THEN <<Dur([s EXCEPT !.hist = p.hist1], j, y)>> ELSE <<>>
-      c  == IF p.ids0 # s.ids THEN <<Dur([s EXCEPT !.hist = p.hist1, !.ids = p.ids0], j, y)>> ELSE <<>>
-      d  == <<Dur([s EXCEPT !.hist = p.hist1, !.ids = p.ids1], j, y)>>
-      e  == IF p.flush THEN <<Dur([s EXCEPT !.hist = p.hist1, !.ids = p.ids1], j, id), Dur(p.fin, j, id)>> ELSE <<>>
+      o1 == IF p.hist1 # p.hist0 THEN Pruned(o, p.hist0, p.hist1) ELSE o
+      a  == <<Dur([s EXCEPT !.hist = p.hist0], j, y, o)>>
+      b  == IF p.hist1 # p.hist0 THEN <<Dur([s EXCEPT !.hist = p.hist1], j, y, o1)>> ELSE <<>>
+      c  == IF p.ids0 # s.ids THEN <<Dur([s EXCEPT !.hist = p.hist1, !.ids = p.ids0], j, y, o1)>> ELSE <<>>
+      d  == <<Dur([s EXCEPT !.hist = p.hist1, !.ids = p.ids1], j, y, o1)>>
+      e  == IF p.flush THEN <<Dur([s EXCEPT !.hist = p.hist1, !.ids = p.ids1], j, id, SyncedPt(p.hist1)),
+                              Dur(p.fin, j, id, SyncedPt(p.hist1))>> ELSE <<>>
   IN  a \o b \o c \o d \o e
 
-RECURSIVE FlattenDur(_, _, _, _, _, _, _, _)
-FlattenDur(s, c, fs, force, sts, prevPid, j, y) ==
+RECURSIVE FlattenDur(_, _, _, _, _, _, _, _, _)
+FlattenDur(s, c, fs, force, sts, prevPid, j, y, o) ==
   IF fs = <<>> THEN <<>>
   ELSE LET p  == CommitParts(s, c, Head(fs), force, IF Head(sts) THEN prevPid ELSE s.kv.pid)
-           y1 == IF p.flush THEN p.fin.disk.id ELSE y
-       IN  CommitDur(s, p, j, y) \o FlattenDur(p.fin, c, Tail(fs), force, Tail(sts), s.kv.pid, j, y1)
+           q  == CommitDur(s, p, j, y, o)
+       IN  q \o FlattenDur(p.fin, c, Tail(fs), force, Tail(sts), s.kv.pid, j, q[Len(q)].syn, q[Len(q)].pt)
 
-RECURSIVE RevertDur(_, _, _, _)
-RevertDur(s, r, j, y) ==
+RECURSIVE RevertDur(_, _, _, _, _)
+RevertDur(s, r, j, y, o) ==
   IF s.disk.root = r \/ ~CanRevert(s) THEN <<>>
   ELSE LET n == RevertOne(s) IN
-       (IF s.bufN > 0 THEN <<>> ELSE <<Dur(n, j, y)>>) \o RevertDur(n, r, j, y)
+       (IF s.bufN > 0 THEN <<>> ELSE <<Dur(n, j, y, o)>>) \o RevertDur(n, r, j, y, o)
 
 MinOf(a, b) == IF a < b THEN a ELSE b
 Last(q) == q[Len(q)]
@@ -64,24 +73,29 @@ OpDur(op) ==
              r  == Over(p, op.d)
              c1 == Append(SubSeq(chain, 1, op.j), [root |-> r, diff |-> op.d])
          IN  IF r = p \/ r = disk.root \/ r \in ChainRoots(chain) THEN <<>>
-             ELSE FlattenDur([Cur EXCEPT !.chain = c1], cfg, op.fs, FALSE, Falses(Len(op.fs)), kv.pid, jr, syn)
+             ELSE FlattenDur([Cur EXCEPT !.chain = c1], cfg, op.fs, FALSE, Falses(Len(op.fs)), kv.pid, jr, syn, pt)
     [] op.t = "C" ->
          IF op.i = 0 THEN <<>>
-         ELSE FlattenDur([Cur EXCEPT !.chain = SubSeq(chain, 1, op.i)], cfg, Falses(op.i), TRUE, op.sts, kv.pid, jr, syn)
+         ELSE FlattenDur([Cur EXCEPT !.chain = SubSeq(chain, 1, op.i)], cfg, Falses(op.i), TRUE, op.sts, kv.pid, jr, syn, pt)
     [] op.t = "R" ->
          IF ~Recoverable(op.w) THEN <<>>
          ELSE LET out == RevertLoop(Cur, op.w)
                   j1  == IF jr.has THEN [jr EXCEPT !.rolled = TRUE] ELSE jr
-              IN  RevertDur(Cur, op.w, jr, syn) \o
-                  (IF out.ok THEN <<Dur([out.st EXCEPT !.hist = TruncHead(@, out.st.disk.id)], j1, MinOf(syn, out.st.disk.id))>>
+              IN  RevertDur(Cur, op.w, jr, syn, pt) \o
+                  (IF out.ok THEN <<Dur([out.st EXCEPT !.hist = TruncHead(@, out.st.disk.id)], j1, MinOf(syn, out.st.disk.id), pt)>>
                              ELSE <<>>)
     [] op.t = "J" ->
          LET j1 == [has |-> TRUE, base |-> kv.world, disk |-> disk, buf |-> buf, chain |-> SubSeq(chain, 1, op.i), rolled |-> FALSE]
-         IN  <<Dur(Cur, jr, hist.head), Dur(Cur, j1, hist.head)>>
+         IN  <<Dur(Cur, jr, hist.head, SyncedPt(hist)), Dur(Cur, j1, hist.head, SyncedPt(hist))>>
 
-(* what survives a crash in durable state D: any prefix of the freezer not below syn *)
+(* what survives a crash in durable state D: any prefix of the freezer not below syn, and any *)
+(* tail between the synced one and the current one (pruned histories come back)             *)
 Cuts(D) == (IF D.syn > D.hist.tail THEN D.syn ELSE D.hist.tail)..D.hist.head
-CutTo(D, h) == [D EXCEPT !.hist = TruncHead(@, h)]
+Tails(D) == D.pt.tail..D.hist.tail
+CutTo(D, h, t) ==
+  LET all == [i \in (DOMAIN D.hist.recs) \cup (DOMAIN D.pt.recs) |->
+                IF i \in DOMAIN D.hist.recs THEN D.hist.recs[i] ELSE D.pt.recs[i]]
+  IN  [D EXCEPT !.hist = [tail |-> t, head |-> h, recs |-> Restrict(all, {i \in DOMAIN all : i > t /\ i <= h})]]
 
 (* canonical state at id i as far as the durable state knows *)
 CanonIn(D, i) == IF (i + 1) \in DOMAIN D.hist.recs THEN D.hist.recs[i + 1].parent
@@ -107,7 +121,7 @@ ReopenFrom(D) ==
        jr    |-> D.jr]
 
 (* --------------------------------- actions --------------------------------- *)
-CInit == Init /\ syn = 0 /\ dead = FALSE /\ kf = FALSE /\ seen = <<>>
+CInit == Init /\ syn = 0 /\ pt = [tail |-> 0, recs |-> <<>>] /\ dead = FALSE /\ kf = FALSE /\ seen = <<>>
 
 Alive == ~dead /\ ~kf
 
@@ -123,22 +137,25 @@ Do(op) ==
        [] op.t = "C" -> CommitAt(op.i, op.sts)
        [] op.t = "R" -> RecoverTo(op.w)
        [] op.t = "J" -> Reopen(op.i)
-  /\ syn' = LET q == OpDur(op) IN IF op.t = "J" THEN hist.head ELSE IF q = <<>> THEN syn ELSE Last(q).syn
+  /\ LET q == OpDur(op) IN
+       /\ syn' = IF q = <<>> THEN syn ELSE Last(q).syn
+       /\ pt'  = IF q = <<>> THEN pt ELSE Last(q).pt
   /\ UNCHANGED <<dead, kf>>
   /\ seen' = IF op.t = "U"
              THEN LET p == IF op.j = 0 THEN disk.root ELSE chain[op.j].root IN (Over(p, op.d) :> p) @@ seen
              ELSE seen
 
 (* the process stops after k durable writes of op (k = 0: while idle); h freezer items survive *)
-CrashAt(op, k, h) ==
+CrashAt(op, k, h, t) ==
   LET q == OpDur(op)
-      D == IF k = 0 THEN Dur(Cur, jr, syn) ELSE q[k]
-      R == ReopenFrom(CutTo(D, h))
+      D == IF k = 0 THEN Dur(Cur, jr, syn, pt) ELSE q[k]
+      R == ReopenFrom(CutTo(D, h, t))
   IN  /\ Alive
       /\ k \in 0..Len(q)
-      /\ h \in Cuts(D)
+      /\ h \in Cuts(D) /\ t \in Tails(D)
       /\ Set(R.st) /\ jr' = R.jr
       /\ syn' = R.st.hist.head
+      /\ pt' = SyncedPt(R.st.hist)
       /\ dead' = R.dead
       /\ kf' = R.stale
       /\ zombies' = {}
@@ -163,11 +180,11 @@ WellFormed(op) ==
 CNext == \E op \in Ops :
            /\ WellFormed(op)
            /\ \/ Do(op)
-              \/ \E k \in 0..Len(OpDur(op)) : \E h \in 0..(hist.head + Len(chain) + 1) : CrashAt(op, k, h)
+              \/ \E k \in 0..Len(OpDur(op)) : \E h \in 0..(hist.head + Len(chain) + 1) : \E t \in 0..(hist.head + Len(chain) + 1) : CrashAt(op, k, h, t)
 
 CSpec == CInit /\ [][CNext]_cvars
 
-CStateView == <<StateView, syn, dead, kf, seen>>
+CStateView == <<StateView, syn, pt, dead, kf, seen>>
 
 (* ------------------------------- properties ------------------------------- *)
 (* C20: the database always reopens, except in the pending known-finding situation *)
